@@ -136,7 +136,7 @@ def run(tier, seed, model_ok, spec_ok, replay=None):
                       and l.method in ("equal_to", "not_equal_to", "in_", "not_in", "eq")]
             if leaves:
                 l = g.r.choice(leaves)
-                keys = g.r.sample(["name", "a", "b", "x"], g.r.randint(1, 2)) + [g.r.choice(["path", "my_path", "path.len", "xpath", "path.first"])]
+                keys = g.r.sample(["name", "a", "b", "x"], g.r.randint(1, 2)) + [g.r.choice(["path", "my_path", "path.len", "xpath", "path.first", "path.", "C:\\Path", "\\path"])]
                 g.r.shuffle(keys)
                 m = {k: g.r.choice([1, "x", "/tmp", ["a"], None, True]) for k in keys}
                 kk = g.r.random()
